@@ -246,9 +246,15 @@ func (rg *Range) obligations() []*boundOb {
 					continue
 				}
 				idx, k, ok := paramLenGoal(g)
-				if !ok || !rg.p.allCallersPassLen(fn, idx, k) {
-					allOK = false
+				if ok && rg.p.allCallersPassLen(fn, idx, k) {
+					continue
 				}
+				// any goal over the parameters alone: every call site must entail it
+				if rg.p.allCallersEntail(fn, g) {
+					rg.axiom(g) // established for the callee: usable by later obligations
+					continue
+				}
+				allOK = false
 			}
 			if allOK {
 				o.proved = true
@@ -688,4 +694,47 @@ func (p *Prog) recursionIn(scope map[*ssa.Function]*ssa.Function) []string {
 	}
 	sort.Strings(out)
 	return uniq(out)
+}
+
+// allCallersEntail: goal mentions only parameters of fn (param:i, len(param:i));
+// at every in-module call site the caller's facts entail the goal with the
+// arguments substituted. fn is unexported and has call sites.
+func (p *Prog) allCallersEntail(fn *ssa.Function, goal Lin) bool {
+	sites := p.callSitesOf(fn)
+	if len(sites) == 0 {
+		return false
+	}
+	for _, c := range sites {
+		crg := p.NewRange(c.Parent())
+		crg.addressSpaceAxiom()
+		tr := newLin()
+		tr.k.Set(goal.k)
+		for a, coef := range goal.c {
+			var i int
+			var sub Lin
+			switch {
+			case scan1(a, "len(param:%d)", &i) && i < len(c.Common().Args):
+				sub = crg.lenOf(c.Common().Args[i])
+			case scan1(a, "param:%d", &i) && i < len(c.Common().Args):
+				l, ok := crg.lin(c.Common().Args[i])
+				if !ok {
+					return false
+				}
+				sub = l
+			default:
+				return false
+			}
+			tr = tr.add(sub, coef)
+		}
+		crg.addressSpaceAxiom()
+		if !crg.entails(crg.factsAt(c.Block()), tr) {
+			return false
+		}
+	}
+	return true
+}
+
+func scan1(s, format string, i *int) bool {
+	n, err := fmt.Sscanf(s, format, i)
+	return err == nil && n == 1 && s == fmt.Sprintf(format, *i)
 }
